@@ -73,8 +73,9 @@ def redact_claims(claims: Mapping[str, object]) -> dict[str, object]:
 
     Key-based, like :mod:`vgi_rpc.sentry`'s kwarg redactor: a value is
     matched on the name it arrived under, never on its content.  A claim
-    called ``context`` holding an email address is not caught, and cannot be
-    without guessing at free text.
+    called ``context`` holding an email address as free text is not caught,
+    and cannot be without guessing at free text.  Nested objects and lists
+    are walked, so ``{"context": {"email": ...}}`` is redacted by name.
 
     Values are **replaced rather than dropped** so the record still shows
     which claims the credential carried.  "Was there an ``email`` claim on
@@ -88,7 +89,23 @@ def redact_claims(claims: Mapping[str, object]) -> dict[str, object]:
         A new dict with the same keys, sensitive values replaced.
 
     """
-    return {k: (REDACTED if _DEFAULT_CLAIM_REDACT_RE.search(k) else v) for k, v in claims.items()}
+    return {k: (REDACTED if _DEFAULT_CLAIM_REDACT_RE.search(str(k)) else _redact_nested(v)) for k, v in claims.items()}
+
+
+def _redact_nested(value: object) -> object:
+    """Apply the key-based redaction inside nested objects and lists.
+
+    Claims are JSON, and providers nest them (``address``, ``realm_access``,
+    a gate's own ``vgi_proxy_proof`` map).  A sensitive name one level down
+    is still a sensitive name, so the same rule is applied at every depth.
+    """
+    if isinstance(value, Mapping):
+        return {
+            k: (REDACTED if _DEFAULT_CLAIM_REDACT_RE.search(str(k)) else _redact_nested(v)) for k, v in value.items()
+        }
+    if isinstance(value, list | tuple):
+        return [_redact_nested(v) for v in value]
+    return value
 
 
 def no_redaction(claims: Mapping[str, object]) -> dict[str, object]:
